@@ -311,18 +311,19 @@ def _pick_random_folded(ctx, pr) -> Optional[List[str]]:
     kts = [F.get_attr(k, "key_type") for k in keys]
     if any(not isinstance(x, str) for x in kts):
         return None
+    kt_of = {id(k): kt for k, kt in zip(keys, kts)}
     table = {"A-oct": ["oct"], "A-pk": ["RSA", "EC"], "A-okp": ["OKP"], "A-empty": []}
     problems: List[str] = []
     F.start_trace()
     try:
-        for keyset in (keys, []):
+        for keyset in (keys, keys[:1], keys[1:2], keys[1:3], []):
             for alg in list(table) + ["A-unlisted"]:
                 inst = Inst(P.cls(KS), {"keys": list(keyset), "algorithm_keys": {k: list(v) for k, v in table.items()}})
                 try:
                     r = F.call(FuncVal(pr, None, inst), [alg], {})
                 except FoldRaise:
                     return None
-                want = [k for k, kt in zip(keyset, kts) if kt in table[alg]] if table.get(alg) else list(keyset)
+                want = [k for k in keyset if kt_of[id(k)] in table[alg]] if table.get(alg) else list(keyset)
                 if is_unknown(r):
                     return None
                 if not want:
